@@ -135,7 +135,8 @@ SPEC = PropSpec(
                  "strings: termination (bounded interpreter steps), only complete packets, consecutive slices, short "
                  "remainder. R10.5 consumers add no loop of their own."
                  " R10.c: the definition's packet generator in header-only mode on a 3-packet stream cut at every byte (bytes, file, closed socket) ends normally with exactly the complete packets. Sources include files that live on disk (descriptor, mmap), handles that were read before, and show_progress=True."
-                 ' The truncation table includes streams with packets of the maximum size (cuts around every packet boundary) and file objects whose read(n) returns fewer bytes than asked for before the end of the file.'),
+                 ' The truncation table includes streams with packets of the maximum size (cuts around every packet boundary) and file objects whose read(n) returns fewer bytes than asked for before the end of the file.'
+                 ' R10.c crosses header-only mode with skip_header_bytes, with combining and with every sequence-flag value; the framing tables include handles positioned after the first packet(s), handles whose descriptor holds fewer bytes than the stream (os.fstat modelled) and an ASCII-only standard output under show_progress.'),
     rule_doc="R10.t one obligation per (prefix, cut offset) over all sources; R10.g per byte string; others per instance",
     assumptions=["a reader returns a falsy value once the source is exhausted (files, bytes, socket closed by its peer)"],
     mutants=mutants,
